@@ -24,7 +24,7 @@ import GoBk.Model.XKeyStore
 
   Values (what the hash/curve computations return) are taken from the value-level model
   `GoBk.Bip32` applied to the bytes the slices currently denote (`Heap.absKey`); the invariant
-  `Inv` (Props/C18) includes that a non-empty `pubKey` cache holds exactly `pubKeyBytes` of those
+  `Inv` (`GoBk.Proofs.Bip32Lemmas`, property theorems in Props/C18) includes that a non-empty `pubKey` cache holds exactly `pubKeyBytes` of those
   bytes, which is what makes reading the cache equivalent to recomputing.  Intermediate keys of a
   multi-component path are unreachable garbage and are not recorded as objects.  Core Lean only.
 -/
